@@ -31,9 +31,9 @@ manifest = {
     "setup_cmd": "sh tools/setup.sh",
     "hooks": {
         "guard": "KRROOD_VERIF",
-        "enable": "no hook exists: every seam is an argument krrood already accepts, the gc module, or a module-attribute patch applied inside the check process; KRROOD_VERIF is read by no source line",
+        "enable": "sim/check.py sets KRROOD_VERIF=1 in its own environment before it imports krrood from /repo/src (read once at import of krrood/entity_query_language/symbolic.py); one hook: the conclusions attached to an expression node are kept in insertion order instead of a plain set, so that the order in which several conclusions of one node are applied does not depend on memory addresses",
         "baseline_off_cmd": "cd /repo && /venv/bin/python -m pytest -ra -q -p no:cacheprovider --timeout=900 --continue-on-collection-errors",
-        "source_commits": [],
+        "source_commits": ["9b037c1"],
         "add_only": True,
     },
     "engines": sorted(engines.values(), key=lambda e: e["name"]),
